@@ -4,6 +4,7 @@ import (
 	"bytes"
 	"fmt"
 	"reflect"
+	"runtime"
 	"strings"
 
 	"github.com/willabides/rjson"
@@ -287,8 +288,19 @@ func RunC14(c *Ctx) {
 		// lines or messages into a scratch slice): the same address, refilled with different bytes
 		// (seeded change C14r4-m2 memoised the last skipped value by slice address and length)
 		inbuf := make([]byte, 1<<16)
+		// one history in 37 has garbage collections between its calls (two in a row empty sync.Pool's victim
+		// cache as well): state parked in a pool, behind a finalizer or a weak pointer only changes hands there
+		var gcr *workload.Rand
+		if index%37 == 5 {
+			gcr = workload.NewRand(c.Seed, index+1700000000)
+		}
 		for i := range calls {
 			call := &calls[i]
+			if gcr != nil && gcr.Intn(3) == 0 {
+				runtime.GC()
+				runtime.GC()
+				c.Rec.C("garbage_collections_forced_between_calls")
+			}
 			if len(call.doc) <= len(inbuf) && index%3 != 0 {
 				n := copy(inbuf, call.doc)
 				if n < len(inbuf) {
